@@ -2,7 +2,7 @@ import Qv.Proofs.PcboAll
 /-!
 # C02: penalties of one history add independently
 -/
-namespace Qv
+namespace Qv.PcboP
 
 /-- every addition of the history satisfies the hypotheses of the property at the state it is made in, is not
 in a give-up branch, and its polynomial mentions user labels only -/
@@ -22,12 +22,12 @@ theorem HistHyp.below {st : St} {h : List Step} (hh : HistHyp st h) : ∀ c ∈ 
 theorem FPen_trans (a b c : St) (s : Var → Rat) : FPen a c s = FPen a b s + FPen b c s := by
   unfold FPen; ring
 
-theorem run_cons_eq (st : St) (c : Step) (r : List Step) : runH st (c :: r) = runH (step st c) r := rfl
+theorem run_cons_eq (st : St) (c : Step) (r : List Step) : run st (c :: r) = run (step st c) r := rfl
 
 theorem run_nonneg {st : St} {h : List Step} (hh : HistHyp st h) {s : Var → Rat} (hs : IsBool s) :
-    0 ≤ FPen st (runH st h) s := by
+    0 ≤ FPen st (run st h) s := by
   induction h generalizing st with
-  | nil => simp [runH, FPen]
+  | nil => simp [run, FPen]
   | cons c r ih =>
     rw [run_cons_eq, FPen_trans st (step st c)]
     have h1 : 0 ≤ FPen st (step st c) s := addConstraint_nonneg hh.1 hs
@@ -37,7 +37,7 @@ theorem run_nonneg {st : St} {h : List Step} (hh : HistHyp st h) {s : Var → Ra
 /-- a violated constraint of the history costs at least its `lam`, whatever the ancillas of all the
 constraints are set to -/
 theorem run_viol {st : St} {h : List Step} (hh : HistHyp st h) {s : Var → Rat} (hs : IsBool s)
-    (c : Step) (hc : c ∈ h) (hr : ¬ RelP c.rel (eval s c.P)) : c.lam ≤ FPen st (runH st h) s := by
+    (c : Step) (hc : c ∈ h) (hr : ¬ RelP c.rel (eval s c.P)) : c.lam ≤ FPen st (run st h) s := by
   induction h generalizing st with
   | nil => cases hc
   | cons d r ih =>
@@ -54,9 +54,9 @@ theorem run_viol {st : St} {h : List Step} (hh : HistHyp st h) {s : Var → Rat}
 terms vanish together -/
 theorem run_sat {st : St} {h : List Step} (hh : HistHyp st h) {x : Var → Rat} (hx : IsBool x)
     (hr : ∀ c ∈ h, RelP c.rel (eval x c.P)) :
-    ∃ s, (∀ i, ¬ InA st (runH st h) i → s i = x i) ∧ IsBool s ∧ FPen st (runH st h) s = 0 := by
+    ∃ s, (∀ i, ¬ InA st (run st h) i → s i = x i) ∧ IsBool s ∧ FPen st (run st h) s = 0 := by
   induction h generalizing st x with
-  | nil => exact ⟨x, fun _ _ => rfl, hx, by simp [runH, FPen]⟩
+  | nil => exact ⟨x, fun _ _ => rfl, hx, by simp [run, FPen]⟩
   | cons c r ih =>
     have S : Sem (RelP c.rel) st (step st c) c.P c.lam := addConstraint_sem hh.1 hh.2.1
     obtain ⟨s1, a1, b1, f1⟩ := S.sat x hx (hr c List.mem_cons_self)
@@ -68,7 +68,7 @@ theorem run_sat {st : St} {h : List Step} (hh : HistHyp st h) {x : Var → Rat} 
       rw [this]; exact hr c' (List.mem_cons_of_mem _ hc')
     obtain ⟨s2, a2, b2, f2⟩ := ih hh.2.2.2 b1 hr'
     have hle1 : st.anc ≤ (step st c).anc := step_anc_le st c
-    have hle2 : (step st c).anc ≤ (runH (step st c) r).anc := run_anc_le _ r
+    have hle2 : (step st c).anc ≤ (run (step st c) r).anc := run_anc_le _ r
     refine ⟨s2, fun (i : Nat) hi => ?_, b2, ?_⟩
     · rw [a2 i (fun ⟨k, k1, k2, e⟩ => hi ⟨k, by omega, k2, e⟩)]
       exact a1 i (fun ⟨k, k1, k2, e⟩ => hi ⟨k, k1, by rw [run_cons_eq]; omega, e⟩)
@@ -86,4 +86,4 @@ theorem run_sat {st : St} {h : List Step} (hh : HistHyp st h) {x : Var → Rat} 
       have : FPen st (step st c) s1 = 0 := f1
       rw [this]; ring
 
-end Qv
+end Qv.PcboP
